@@ -1,12 +1,13 @@
 (* Properties_C03.v -- C03: the Verilog processor (processor.sv + memory.sv wired as in hex.sv) is cycle-for-cycle
-   equivalent to the ISA.  RtlHex.design is regenerated from /repo's working tree by tools/vl2coq.py on every run;
+   equivalent to the ISA -- and so are the two shipped plain-Verilog copies verilog/processor.v and synth/processor.v
+   (theorems 6-9: C16's equivalence composed with the reference datapath at the ports of the processor, RtlCopies.v).  RtlHex.design is regenerated from /repo's working tree by tools/vl2coq.py on every run;
    RtlSem.cycle is one rising clock edge with i_rst = 0; RefRtl is the hand-written reference datapath; abs maps an RTL
    state to an ISA state; Inv = register widths, memory words < 2^32, low nibble of oreg_q clear;
    in_range = the property's address range (next pc / branch / BRB target / LDAP result < 800000; word addresses
    < 200000 are implied by Isa.step = Ok). *)
 From Coq Require Import ZArith List String.
-From HexVerif Require Import WMap Isa Vexp RtlSem RefRtl RtlC03 RtlIsa RtlRun.
-From HexVerif.gen Require RtlHex.
+From HexVerif Require Import WMap Isa Vexp RtlSem RefRtl RtlC03 RtlIsa RtlRun RtlCopies.
+From HexVerif.gen Require RtlHex RtlSv RtlV RtlVSynth.
 Import ListNotations.
 Local Open Scope Z_scope.
 
@@ -111,6 +112,51 @@ Definition C03_one_instruction_per_clock_full : Prop :=
   Inv s -> isa_run n (abs s) inp = Some (a, inp', evs, bs) -> run_in_range n (abs s) inp ->
   exists s' evs', tb_run RtlHex.design n s inp = (s', inp', evs', bs) /\ List.length bs = n.
 
+(* ------------------------------------------------------------------ all three shipped processors.
+   RtlSv / RtlV / RtlVSynth are the designs generated on this run from verilog/processor.sv, verilog/processor.v and
+   synth/processor.v (top module processor).  [penv s k dd] presents the registers of s, the instruction byte k on i_f_data,
+   the read data dd on i_d_data and i_rst = 0 at the ports of the processor.  [pcycle d] wires the processor d to the memory
+   as hex.sv / memory.sv do: the byte at o_f_addr is fetched, the word at o_d_addr is read, and o_d_data is stored at
+   o_d_addr when o_d_valid and o_d_we (RtlCopies.pcycle).  The proofs compose C16's equivalence (RtlC16.v_equiv_sv,
+   vsynth_equiv_v: the copies equal processor.sv on every output and next-state function) with the closed check that
+   processor.sv is the reference datapath at its ports (RtlCopies.sv_check). *)
+
+(* 6. at the ports: for every well-formed state, instruction byte and read data, each copy raises exactly the reference
+   request (fetch address, data address / data / valid / write enable, system-call lines) and computes the reference next
+   pc, areg, breg, oreg *)
+Theorem C03_copies_are_reference : forall (s : rstate) (k dd : Z), wf s -> 0 <= k < 256 -> 0 <= dd < M32 ->
+  (map (evalp (penv s k dd)) (outputs RtlV.design) = ref_outputs s k /\ map (evalp (penv s k dd)) (next RtlV.design) = ref_next s k dd) /\
+  (map (evalp (penv s k dd)) (outputs RtlVSynth.design) = ref_outputs s k /\ map (evalp (penv s k dd)) (next RtlVSynth.design) = ref_next s k dd) /\
+  (map (evalp (penv s k dd)) (outputs RtlSv.design) = ref_outputs s k /\ map (evalp (penv s k dd)) (next RtlSv.design) = ref_next s k dd).
+Proof. exact copies_are_reference. Qed.
+Print Assumptions C03_copies_are_reference.
+
+(* 7. wired to the memory, one clock of each copy is one clock of the hex top (theorem 1) ... *)
+Theorem C03_copies_cycle_is_hex : forall s : rstate, wf s ->
+  pcycle RtlV.design s = cycle RtlHex.design s /\ pcycle RtlVSynth.design s = cycle RtlHex.design s /\
+  pcycle RtlSv.design s = cycle RtlHex.design s.
+Proof. exact copies_cycle_is_hex. Qed.
+Print Assumptions C03_copies_cycle_is_hex.
+
+(* 8. ... and hence one ISA instruction, under the same hypotheses and with the same conclusion as theorem 2 *)
+Theorem C03_copies_refine_isa : forall (s : rstate) (inp : inputs) (a' : arch) (inp' : inputs) (ev : event),
+  Inv s -> step (abs s) inp = Ok (a', inp', ev) -> in_range (fetch (abs s)) a' ->
+  (abs (pcycle RtlV.design s) = (if is_read ev then with_mem a' (r_mem s) else a') /\ Inv (pcycle RtlV.design s)) /\
+  (abs (pcycle RtlVSynth.design s) = (if is_read ev then with_mem a' (r_mem s) else a') /\ Inv (pcycle RtlVSynth.design s)) /\
+  (abs (pcycle RtlSv.design s) = (if is_read ev then with_mem a' (r_mem s) else a') /\ Inv (pcycle RtlSv.design s)).
+Proof. exact copies_refine_isa. Qed.
+Print Assumptions C03_copies_refine_isa.
+
+(* 9. reset: the registers of both copies are assigned in blocks sensitive to posedge i_clk or posedge i_rst, and a clock
+   edge with i_rst = 1 clears them from every state, for every instruction byte and data input *)
+Theorem C03_copies_reset :
+  (clocking RtlV.design = [("areg_q", regs_clk); ("breg_q", regs_clk); ("oreg_q", regs_clk); ("pc_q", regs_clk)]%string /\
+   clocking RtlVSynth.design = [("areg_q", regs_clk); ("breg_q", regs_clk); ("oreg_q", regs_clk); ("pc_q", regs_clk)]%string) /\
+  forall e : env, 0 <= var e "i_f_data" < 256 -> var e "i_rst" = 1 ->
+  map (evalp e) (next RtlV.design) = cleared /\ map (evalp e) (next RtlVSynth.design) = cleared /\ map (evalp e) (next RtlSv.design) = cleared.
+Proof. exact copies_reset. Qed.
+Print Assumptions C03_copies_reset.
+
 (* ------------------------------------------------------------------ non-vacuity: a program for which every hypothesis
    holds, run on the ISA and on the generated design.  LDAC 5; LDBC 3; ADD; STAM 2 *)
 Definition demo_ws : list Z := [584139573].                  (* bytes 35 43 d1 22 *)
@@ -126,3 +172,13 @@ Example C03_design_computes :
   let '(s', _, _, bs) := tb_run RtlHex.design 4 (reset_state (load_words WMap.zero 0 demo_ws)) no_input in
   bs = [53; 67; 209; 34] /\ r_areg s' = 8 /\ rd (r_mem s') 2 = 8 /\ r_pc s' = 4.
 Proof. vm_compute. auto. Qed.
+(* the same program on verilog/processor.v and synth/processor.v wired to the memory *)
+Example C03_copies_compute :
+  let s0 := reset_state (load_words WMap.zero 0 demo_ws) in
+  (r_areg (four RtlV.design s0) = 8 /\ rd (r_mem (four RtlV.design s0)) 2 = 8 /\ r_pc (four RtlV.design s0) = 4) /\
+  (r_areg (four RtlVSynth.design s0) = 8 /\ rd (r_mem (four RtlVSynth.design s0)) 2 = 8 /\ r_pc (four RtlVSynth.design s0) = 4).
+Proof. exact copies_compute. Qed.
+(* the closed check behind theorem 6 separates designs: processor.sv with its ADD turned into SUB fails it, at byte 0xD1 *)
+Example C03_copies_check_rejects_a_broken_design :
+  proc_check (RtlC16.broken RtlSv.design) = false /\ proc_failures (RtlC16.broken RtlSv.design) = [209].
+Proof. exact proc_check_discriminates. Qed.
